@@ -1,0 +1,17 @@
+//! Verification hooks (only compiled with `--cfg libp2p_verif`).
+//!
+//! Visibility shims that let a harness drive the relay [`Behaviour`](crate::Behaviour) directly
+//! with the events its (crate-private) connection handler emits, and read the commands the
+//! behaviour sends back to its handlers. No logic under test is re-implemented here.
+
+pub use crate::{
+    behaviour::handler::{Config as HandlerConfig, Event as HandlerEvent, In as HandlerIn},
+    proto::message_v2_pb::Status as ProtoStatus,
+    protocol::inbound_hop::{CircuitReq, ReservationReq},
+};
+
+/// The status the handler reports to the source for a failed STOP negotiation
+/// (`outbound_stop::Error::to_status`).
+pub fn stop_error_status(e: &crate::outbound::stop::Error) -> ProtoStatus {
+    e.to_status()
+}
